@@ -2,6 +2,7 @@ import Driver.CscIO
 import ClarabelModel.CscBlocks
 import ClarabelModel.Kkt
 import ClarabelModel.KktPasses
+import ClarabelModel.KktRanges
 
 open Clarabel Driver Clarabel.Csc Clarabel.Kkt
 
@@ -181,6 +182,17 @@ def handlePasses (kv : KV) : Option String := do
     pure (s!"np={outs.length}" ++ String.join parts)
   pure (fmtME id r)
 
+/-- `kkt.cone_ranges`: `make_rng_cones`, `make_rng_blocks`, `rng_cones_iter`, length of
+`allocate_kkt_Hsblocks` -/
+def handleConeRanges (kv : KV) : Option String := do
+  let cones ← parseCones kv
+  let rc := makeRngCones cones
+  let rb := makeRngBlocks cones
+  let it := rngConesIter cones
+  let f (xs : List (Nat × Nat)) : String := fmtNats (xs.map (·.1)).toArray
+  let g (xs : List (Nat × Nat)) : String := fmtNats (xs.map (·.2)).toArray
+  pure s!"cs={f rc} ce={g rc} bs={f rb} be={g rb} is={f it} ie={g it} hslen={allocateKktHsblocksLen cones}"
+
 def handle (ch : String) (kv : KV) : String :=
   let r :=
     if ch.startsWith "blk." then
@@ -192,6 +204,7 @@ def handle (ch : String) (kv : KV) : String :=
       | "kkt.update" => handleUpdate kv
       | "kkt.get_hs" => handleGetHs kv
       | "kkt.passes" => handlePasses kv
+      | "kkt.cone_ranges" => handleConeRanges kv
       | _ => some "unknown-channel"
   r.getD "bad-request"
 
